@@ -9,6 +9,8 @@ Not decided: that B is the Cholesky-like factor of the reciprocal metric, rotati
 """
 import ast
 
+import networkx as nx
+
 import numpy as np
 
 from engine import pyfacts, vn, vn_py
@@ -23,11 +25,7 @@ TM = "ImageD11/sinograms/tensor_map.py"
 PBP = "ImageD11/sinograms/point_by_point.py"
 
 
-def nan_policy(c, m, e):
-    """general (non-NaN) path of the kernels; other symbolic tests use the generic-position policy"""
-    if "isnan" in c.text:
-        return False
-    return vn_py.default_policy(c, m, e)
+nan_policy = vn_py.no_nan_policy
 
 
 def run(R):
@@ -259,30 +257,85 @@ def r5(R):
             R.check(ok, "C04.R5", TM, fn.lineno, name, "branch-free, no linear algebra (NaN propagates through arithmetic)",
                     "the kernel now branches or calls linear algebra: it needs an explicit NaN guard")
             continue
-        body = [s for s in fn.body if not (isinstance(s, ast.Expr) and isinstance(s.value, ast.Constant))]
-        R.shape(len(body) >= 1 and isinstance(body[0], ast.If), "C04.R5", TM, name, "a leading if/elif NaN guard chain")
-        # collect the guard chain
-        guarded = {}
-        node = body[0]
-        while isinstance(node, ast.If):
-            t = node.test
-            calls = [c for c in ast.walk(t) if isinstance(c, ast.Call) and (pyfacts.dotted(c.func) or "").endswith("isnan")]
-            for c in calls:
+        # path formulation on the flow graph (the shape of the guard - if / elif chain, one combined test, negated test with the
+        # branches swapped - is free):
+        #   a. every use of an input outside an isnan() test is dominated by a branch that implies 'not isnan(input[..])'
+        #   b. from the other side of such a branch every path to the exit passes  res[...] = nan  and no other store to res
+        cfg = pyfacts.PyCFG(fn)
+
+        def isnan_arg(c):
+            if isinstance(c, ast.Call) and (pyfacts.dotted(c.func) or "").endswith("isnan") and len(c.args) == 1:
                 a0 = c.args[0]
                 base = a0.value if isinstance(a0, ast.Subscript) else a0
                 if isinstance(base, ast.Name):
-                    guarded[base.id] = node
-            nanw = [s for s in node.body if isinstance(s, ast.Assign) and isinstance(s.targets[0], ast.Subscript) and src(s.targets[0].value) == out
-                    and "nan" in src(s.value)]
-            if calls:
-                R.check(len(nanw) == 1 and len(node.body) == 1, "C04.R5", TM, node.lineno, name, "NaN path of '%s' writes %s[...] = nan only" % (src(t), out),
-                        "a masked voxel does not come out as NaN (or something else happens on the NaN path)")
-            node = node.orelse[0] if len(node.orelse) == 1 and isinstance(node.orelse[0], ast.If) else None
+                    return base.id
+            return None
+
+        def not_nan(e, pol):
+            """inputs known not to be NaN when condition e has truth value pol"""
+            if isinstance(e, ast.UnaryOp) and isinstance(e.op, ast.Not):
+                return not_nan(e.operand, not pol)
+            if isinstance(e, ast.BoolOp):
+                if (isinstance(e.op, ast.Or) and not pol) or (isinstance(e.op, ast.And) and pol):
+                    out_ = set()
+                    for x in e.values:
+                        out_ |= not_nan(x, pol)
+                    return out_
+                return set()
+            n_ = isnan_arg(e)
+            return {n_} if (n_ is not None and not pol) else set()
+
+        def may_nan(e, pol):
+            """does truth value pol of e leave 'some input is NaN' possible - i.e. is this the masked side of a NaN test"""
+            return bool(not_nan(e, not pol)) and not not_nan(e, pol)
+        tested = set(isnan_arg(c) for c in ast.walk(fn) if isnan_arg(c) is not None)
+        in_test = set(id(x) for c in ast.walk(fn) if isnan_arg(c) is not None for x in ast.walk(c))
+        is_nan_store = lambda st: isinstance(st, ast.Assign) and isinstance(st.targets[0], ast.Subscript) and src(st.targets[0].value) == out and \
+            src(st.value) in ("np.nan", "numpy.nan", "math.nan", "float('nan')", "nan")
+        is_out_store = lambda st: isinstance(st, (ast.Assign, ast.AugAssign)) and any(
+            isinstance(t, ast.Subscript) and src(t.value) == out for t in (st.targets if isinstance(st, ast.Assign) else [st.target]))
         for a in ins:
             if (name, a) in EXC:
                 continue
-            R.check(a in guarded, "C04.R5", TM, fn.lineno, name, "input '%s' tested with isnan before use" % a,
+            R.check(a in tested, "C04.R5", TM, fn.lineno, name, "input '%s' tested with isnan before use" % a,
                     "array input '%s' is used without a NaN test: numba linear algebra on NaN input raises or returns garbage for "
                     "that voxel" % a)
+            if a not in tested:
+                continue
+            for x in ast.walk(fn):
+                if isinstance(x, ast.Name) and x.id == a and isinstance(x.ctx, ast.Load) and id(x) not in in_test:
+                    node = cfg.node_of(x)
+                    if node is None:
+                        continue
+                    known = set()
+                    for e, pol in cfg.guards(node):
+                        known |= not_nan(e, pol)
+                    R.check(a in known, "C04.R5", TM, x.lineno, name, "use of '%s' at line %d is behind 'not isnan(%s[..])'" % (a, x.lineno, a),
+                            "array input '%s' is used on a path where it may be NaN: numba linear algebra on NaN input raises or returns "
+                            "garbage for that voxel" % a)
+        nmasked = 0
+        for nd in cfg.nodes:
+            if nd.k != "assume" or not may_nan(nd.node, nd.pol):
+                continue
+            nmasked += 1
+            reach = set(nx.descendants(cfg.g, nd.id)) | {nd.id}
+            stores = [cfg.nodes[i] for i in reach if cfg.nodes[i].k == "stmt" and is_out_store(cfg.nodes[i].node)]
+            badst = [q for q in stores if not is_nan_store(q.node)]
+            # a later test of another input may sit on this side (if / elif chain): stores behind it that need that input to be good are fine
+            badst = [q for q in badst if not any(may_nan(e, not pol) for e, pol in cfg.guards(q) if not any(e is e2 for e2, p2 in cfg.guards(nd)) and e is not nd.node)]
+            g2 = cfg.g.copy()
+            for q in stores:
+                if is_nan_store(q.node):
+                    g2.remove_node(q.id)
+            # the un-masked continuation of an elif chain leaves this side through a 'not isnan' assume: cut there
+            for i in list(reach):
+                q = cfg.nodes[i]
+                if q.k == "assume" and i != nd.id and not_nan(q.node, q.pol) and i in g2:
+                    g2.remove_node(i)
+            leaks = nd.id in g2 and cfg.exit.id in g2 and nx.has_path(g2, nd.id, cfg.exit.id)
+            R.check(not badst and not leaks, "C04.R5", TM, getattr(nd.node, "lineno", fn.lineno), name,
+                    "NaN path of '%s' (%s) writes %s[...] = nan only" % (src(nd.node), "true" if nd.pol else "false", out),
+                    "a masked voxel does not come out as NaN (or something else happens on the NaN path)")
+        R.shape(nmasked >= 1 or not (set(ins) - set(k_[1] for k_ in EXC if k_[0] == name)), "C04.R5", TM, name, "a branch on isnan(<input>)")
     if nk < 12:
         R.fail("C04.R5 found %d guvectorize kernels, expected at least 12" % nk)
